@@ -40,7 +40,7 @@ func verifC08Vegas(aboveMax bool) {
 	drop := verif.Bool("drop")
 	verif.Assume(lo >= 1 && lo < hi && hi <= 1<<53 && inflight >= 0 && inflight < 1<<31)
 	verif.Assume(base > 0 && float64(lo) >= base) // neither sample lowers the baseline
-	verif.Assume(!a.shouldProbeAfterIncrement())    // neither is a probe
+	verif.Assume(!a.shouldProbeAfterIncrement())  // neither is a probe
 	verif.Class("est_above_max", a.estimatedLimit > float64(a.maxLimit))
 	a.OnSample(0, lo, inflight, drop)
 	b.OnSample(0, hi, inflight, drop)
